@@ -644,6 +644,12 @@ func templateOutsProg(plan *Tape) *Prog {
 	fs := &StructDef{Name: "FS", Fields: []Field{{"a", txt}, {"b", jsn}, {"n", intT}, {"raw", fileT}}}
 	outer := &StructDef{Name: "OUTER", Fields: []Field{{"inner", Ty{Base: "FS"}}, {"list", txt.ArrayOf()}, {"bykey", jsn.MapOf()}, {"note", strT}, {"many", Ty{Base: "FS", Dims: "a"}}}}
 	plainS := &StructDef{Name: "PLAIN", Fields: []Field{{"x", intT}, {"s", strT}}}
+	// the order of the members varies: a struct is a directory under outs/ whatever
+	// comes first in it (a string or an int before the first file, a file first)
+	fs.Fields = append(fs.Fields, Field{"label", strT})
+	rot := func(f []Field, k int) []Field { return append(append([]Field{}, f[k:]...), f[:k]...) }
+	fs.Fields = rot(fs.Fields, plan.Draw(len(fs.Fields)))
+	outer.Fields = rot(outer.Fields, plan.Draw(len(outer.Fields)))
 	p.Structs = []*StructDef{fs, outer, plainS}
 	if plan.Draw(2) == 0 {
 		p.OutNames["FS.a"] = "alpha.txt"
